@@ -1,6 +1,7 @@
 #!/bin/sh
 # usage: tools/seeded_matrix.sh [parallelism]   -- runs every seeded change against its property's check
-# (plus the cross pairs below) and rewrites seeded/RESULTS.jsonl
+# (plus the cross pairs below) and rewrites seeded/RESULTS.jsonl. A run stops after 6 distinct violation keys
+# (VERIF_STOP_AFTER): the question is only whether, and as what, the change is seen.
 cd "$(dirname "$0")/.." || exit 2
 P="${1:-3}"
 out="$PWD/seeded/RESULTS.jsonl"; : > "$out.tmp"
@@ -8,5 +9,5 @@ out="$PWD/seeded/RESULTS.jsonl"; : > "$out.tmp"
   for d in seeded/C*-*/; do echo "${d%/}"; done
   # cross pairs: a change that another property's check also observes
   echo "seeded/C03-2 C17"; echo "seeded/C17-2 C03"; echo "seeded/C06-2 C18"; echo "seeded/C13-1 C05"; echo "seeded/C05-2 C09"
-} | SEEDED_RESULTS="$out.tmp" xargs -P "$P" -L 1 tools/eval_seeded.sh
+} | VERIF_STOP_AFTER="${VERIF_STOP_AFTER:-6}" SEEDED_RESULTS="$out.tmp" xargs -P "$P" -L 1 tools/eval_seeded.sh
 sort "$out.tmp" > "$out"; rm -f "$out.tmp"
